@@ -3,12 +3,13 @@ import FeatherModel.Model.Tiny
 
 /-!
 Driver of C03 (Tiny v2). Requests:
-* `tiny-write <M>`                 -> `ok <text>` | `ok panic` (a name that is not UTF-8; `write_vec` has no `Err` outcome)
+* `tiny-write <M>`                 -> `ok <text>` | `err e` (a cell `write` refuses)
 * `tiny-read <n> <text>`           -> `ok <M>` | `err e`
-* `tiny-rt <M>`                    -> `read (write M)`: `ok <M'>` | `err e` | `ok panic`
+* `tiny-rt <M>`                    -> `read (write M)`: `ok <M'>` | `err e`
 * `oracle-rt <M>`                  -> theorem `read_write` (domain `writable`)
 * `oracle-perm <M> <M'>`           -> theorem `write_perm_dec` (domain `wf`, `wf`, `contentEqB`)
-* `oracle-fixed-point <M>`         -> theorem `write_fixed_point` (domain `writableE`)
+* `oracle-fixed-point <M>`         -> theorem `write_fixed_point` (domain `writable`)
+* `oracle-write-rejects <M>`       -> theorem `write_rejects_iff` (every set): `write` fails iff `writeOk` is false
 * `oracle-read-wf <n> <text>`      -> theorem `read_wf` (domain: `read` succeeds)
 * `oracle-read-counts <n> <text>`  -> theorem `read_counts` (domain: `read` succeeds)
 * `oracle-dup <n> <text> <m> <i> <j>` -> theorem `read_dup` (domain `dupAt`)
@@ -27,20 +28,20 @@ def handleC03 (op : String) (args : List Sexp) : Option Ans :=
   match op, args with
   | "tiny-write", [m] => do
     let m ← mappingsFrom m
-    pure (match write? m with | some t => .ok (ofJStr t) | none => .ok (tag "panic"))
+    pure (match write? m with | some t => .ok (ofJStr t) | none => .err "e")
   | "tiny-read", [n, t] => do
     let n ← toNat? n; let t ← toJStr? t
     pure (match read n t with | some m => .ok (mappingsTo m) | none => .err "e")
   | "tiny-rt", [m] => do
     let m ← mappingsFrom m
     pure (match write? m with
-      | none => .ok (tag "panic")
+      | none => .err "e"
       | some t => match read m.ns.length t with | some r => .ok (mappingsTo r) | none => .err "e")
   | "oracle-rt", [m] => do
     let m ← mappingsFrom m
     pure (if !writable m.ns.length m then outOfDomain else
       match write? m with
-      | none => verdict "write_panic"
+      | none => verdict "write_err"
       | some t =>
         match read m.ns.length t with
         | none => verdict "read_err"
@@ -51,13 +52,16 @@ def handleC03 (op : String) (args : List Sexp) : Option Ans :=
       if write? a == write? b then pass else verdict "differs")
   | "oracle-fixed-point", [m] => do
     let m ← mappingsFrom m
-    pure (if !writableE m.ns.length m then outOfDomain else
+    pure (if !writable m.ns.length m then outOfDomain else
       match write? m with
-      | none => verdict "write_panic"
+      | none => verdict "write_err"
       | some t =>
         match read m.ns.length t with
         | none => verdict "read_err"
         | some r => if write? r == some t then pass else verdict "differs")
+  | "oracle-write-rejects", [m] => do
+    let m ← mappingsFrom m
+    pure (if (write? m).isNone == !writeOk m then pass else verdict (if writeOk m then "refused" else "accepted"))
   | "oracle-read-wf", [n, t] => do
     let n ← toNat? n; let t ← toJStr? t
     pure (match read n t with
